@@ -407,6 +407,52 @@ func runC01(c *core.Ctx) {
 		}
 	}
 
+	// callers of the enqueuers report what the enqueuer reported: after the packet was queued no caller turns the
+	// success into an error of its own (a deadline re-check after the enqueue would report failure for bytes that
+	// are going to be sent)
+	isEnq := map[*ssa.Function]bool{}
+	for _, E := range r.Enqueuers {
+		isEnq[E] = true
+	}
+	for _, fn := range p.Funcs {
+		if p.PkgRel(fn) != "." || fn.Parent() != nil || isEnq[fn] {
+			continue
+		}
+		core.AllInstrs(fn, func(in ssa.Instruction) {
+			call, ok := in.(*ssa.Call)
+			if !ok || call.Call.IsInvoke() || !isEnq[call.Call.StaticCallee()] {
+				return
+			}
+			errv := errOfCall(call)
+			if errv == nil {
+				return
+			}
+			c.Instance("R2")
+			var bad ssa.Instruction
+			core.Search(call, nil, func(x ssa.Instruction) core.Action {
+				ret, ok := x.(*ssa.Return)
+				if !ok || len(ret.Results) == 0 {
+					return core.Continue
+				}
+				last := ret.Results[len(ret.Results)-1]
+				if !isErrorT(last.Type()) {
+					return core.Continue
+				}
+				for _, v := range phiEdgesFrom(last, call.Block(), nil) {
+					u := core.Unwrap(core.ForwardLoad(core.Unwrap(v)))
+					if core.IsNilConst(u) || u == errv || sameErr(u, errv) {
+						continue
+					}
+					if bad == nil {
+						bad = x
+					}
+				}
+				return core.Continue
+			}, nil)
+			c.Check(bad == nil, "R2", "caller/"+core.FName(fn)+"/returns-enqueuer-error", p.InstrPos(call), "after the enqueue call the caller returns that call's error (or nil)", "a caller of the enqueuing function can return an error of its own after the enqueue call returned: the write is reported as failed although its payload was queued and will be transmitted")
+		})
+	}
+
 	// ---- R3
 	for _, E := range r.Enqueuers {
 		c.Instance("R3")
